@@ -351,3 +351,7 @@ T("c10-twin-cvrp-flipped", "C10", (R + "cvrp/env.py", "CVRP.__init__", "expr", "
 # ---------------------------------------------------------------- guarded read (B3), literal extents, bounds vectors
 B("c05-sokoban-ingrid-wrong-cell", "C05", "C05.R7", (R + "sokoban/env.py", "Sokoban.update_box_push_action", "expr", "~self.in_grid(new_location + MOVES[action].squeeze())", "~self.in_grid(new_location)"))
 B("c07-sokoban-ingrid-or-and", "C07", "C07.R5", (R + "sokoban/env.py", "Sokoban.in_grid", "expr", "(0 <= coordinates) & (coordinates < GRID_SIZE)", "(0 <= coordinates) | (coordinates < GRID_SIZE)"))
+
+# ---------------------------------------------------------------- documented defaults
+B("c13-default-next-obs-true", "C13", "C13.R3", ("jumanji/wrappers.py", "AutoResetWrapper", "expr", "False", "True", 1))
+B("c15-gym-default-seed-1", "C15", "C15.R1", ("jumanji/wrappers.py", "JumanjiToGymWrapper.seed", "expr", "0", "1", 1))
